@@ -165,7 +165,8 @@ def monotonic_factorization(arr: ArrayType1D) -> Tuple[int, np.ndarray, pd.Index
 
 
 def factorize_range_index(index: pd.RangeIndex) -> tuple[np.ndarray, pd.Index]:
-    codes, labels = index.values - index.start, index
+    # a copy: the labels get renamed after the keys, the caller's index must not
+    codes, labels = index.values - index.start, index.copy()
     if index.step != 1:
         codes = codes // index.step
 
